@@ -28,7 +28,8 @@ BOUNDS = {
 }
 OUTSIDE = ('mutinf_two_site / entanglement_entropy_segment (eigvalsh of a density matrix), TransferMatrix eigen-solves for infinite '
            'overlaps, MPSEnvironment with Jordan-Wigner signs taken from virtual charges (apply_JW_string_left_of_virt_leg), '
-           'sample_measurements(ops=...) (eigh), float rounding, canonical-form mathematics')
+           'the eigen-decomposition inside sample_measurements(ops=...) (LAPACK on the concrete site operator; taken as given), '
+           'float rounding, canonical-form mathematics')
 STUBS = ['BLAS contract stub (object dtype)', 'numpy facade for tenpy.networks.mps, tenpy.networks.mpo, tenpy.networks.terms, '
          'tenpy.tools.math (dtype widening, abs/conj/real/norm routing)', 'Array.conj hook TENPY_VERIF_SYMBOLIC',
          'numpy.random.Generator replaced by a stub returning a symbolic admissible outcome (sample_measurements)']
@@ -594,6 +595,49 @@ def sample_case(ctx, **p):
         ctx.prove_eq(weight, prob, 'sample_measurements(complex_amplitude=False): weight == Born probability |<sigmas|Theta>|^2')
 
 
+def sample_ops_case(ctx, **p):
+    """sample_measurements(ops=[...]): site i of the window is measured in the eigenbasis of
+    ops[(i - first_site) % len(ops)] and the eigenvalue is reported.  The eigen-decomposition of the (concrete) site
+    operator is LAPACK's; the harness takes it from the same npc.eigh call on the *documented* operator, so that what is
+    decided is which operator is used on which site, the eigenvalue reported and the Born rule in that basis."""
+    import tenpy.linalg.np_conserved as npc
+    sm = _build(ctx, p)
+    psi = sm.psi
+    L = sm.L
+    first, last = p['first'], p['last']
+    ops = list(p['ops'])
+    cplx_amp = p['complex_amplitude']
+    rng = _Rng(ctx)
+    try:
+        sigmas, weight = psi.sample_measurements(first, last, ops=ops, rng=rng, norm_tol=np.inf, complex_amplitude=cplx_amp)
+    except ZeroDivisionError:
+        ctx.assume(False)  # outcome of probability zero: inadmissible for a random generator
+        return
+    if ctx.symbolic and getattr(weight, 'poison', False):
+        ctx.assume(False)
+        return
+    ctx.note('sampled_paths')
+    th = sm.theta(first, last)  # (vL, p_first .. p_last, vR)
+    want_sigmas = []
+    for k, i in enumerate(range(first, last + 1)):
+        site = sm.sites[sm.site(i)]
+        op = site.get_op(ops[(i - first) % len(ops)]).transpose(['p', 'p*'])
+        W, V = npc.eigh(op)
+        v = np.conj(V.to_ndarray()[:, rng.outcomes[k]])  # <eigenvector| : contracts the physical leg k of theta
+        want_sigmas.append(W[rng.outcomes[k]])
+        th = np.tensordot(th, v, axes=(1, 0))  # the projected leg disappears, the next one moves to position 1
+    ctx.prove_eq(np.array(sigmas, dtype=float), np.array(want_sigmas, dtype=float),
+                 'sample_measurements(ops): reported values are eigenvalues of ops[(i - first_site) % len(ops)] on site i')
+    prob = np.sum(np.conj(th) * th)
+    whole = sm.bc == 'finite' and first == 0 and last == L - 1
+    if not cplx_amp:
+        ctx.prove_eq(weight, prob, 'sample_measurements(ops, complex_amplitude=False): weight == Born probability in the eigenbases')
+    elif whole:
+        ctx.prove_eq(weight, th[0, 0], 'sample_measurements(ops): weight == <eigenvectors|psi> (whole finite chain)')
+    else:
+        ctx.prove_eq(weight * weight, prob, 'sample_measurements(ops): weight^2 == Born probability in the eigenbases of the documented operators')
+
+
 # ------------------------------------------------------------------------------------------------
 def _geoms(tier):
     g = [
@@ -605,6 +649,7 @@ def _geoms(tier):
         dict(kind='spin', L=2, chis=[2, 2, 2], bc='infinite'),
         dict(kind='spinSz', L=2, chis=[2, 2, 2], bc='infinite', variant=1),
         dict(kind='fermN', L=2, chis=[2, 2, 2], bc='infinite'),
+        dict(kind='fermP', L=3, chis=[1, 2, 2, 1], bc='finite'),  # charge with a modulus (Z_2)
     ]
     if tier == 'thorough':
         g += [
@@ -615,6 +660,8 @@ def _geoms(tier):
             dict(kind='spin+ferm', L=3, chis=[1, 2, 2, 1], bc='finite'),
             dict(kind='spinSz', L=3, chis=[2, 2, 2, 2], bc='infinite', variant=1),
             dict(kind='ferm', L=3, chis=[2, 3, 2, 2], bc='segment'),
+            dict(kind='spinP', L=3, chis=[2, 2, 2, 2], bc='segment', variant=1),
+            dict(kind='fermP', L=2, chis=[2, 2, 2], bc='infinite'),
         ]
     return g
 
@@ -716,7 +763,7 @@ def CASES(tier, seed):
             add(f'corr.jwdetect.lists[{gn}]', 'corr_jw_detect_case', g, mode='lists')
             add(f'corr.jwdetect.mixed[{gn}]', 'corr_jw_detect_case', g, mode='mixed')
         # ---- term correlation functions
-        if kind.startswith('ferm') or (kind.startswith('spin') and homog and kind != 'spinP'):
+        if kind.startswith('ferm') or (kind.startswith('spin') and homog):
             if kind.startswith('ferm'):
                 tps = [([('Cd', 0)], [('C', 0)]), ([('C', 0)], [('Cd', 0)]), ([('N', 0)], [('Cd', 0), ('C', 0)])]
                 tp2 = ([('Cd', 0), ('N', 1)], [('C', 0)], [('C', 0)])
@@ -794,4 +841,20 @@ def CASES(tier, seed):
                     continue  # complex_amplitude=False on longer windows: see known finding; checked on the finite chains
                 add(f'sample[{first}..{last},complex_amplitude={ca}][{gn}]', 'sample_case', g, first=first, last=last, complex_amplitude=ca)
                 cases[-1]['opts'].update(guided_with_side=True, lazy_abs=True, named_zero_tests=True, profile=(last == first))
+        # measurement in the eigenbasis of given operators (operator list shorter than / not aligned with the window)
+        if kind.startswith('spin') and homog:
+            meas_ops = ['Sz', 'Sx'] if kind in ('spin', 'spinP') else ['Sz', 'Sigmaz']
+        elif kind.startswith('ferm'):
+            meas_ops = ['N', 'dN']
+        elif kind.startswith('shf'):
+            meas_ops = ['Nu', 'Ntot']
+        else:
+            meas_ops = None
+        if meas_ops is not None and kind != 'spinP':
+            owins = [(0, 1), (1, 2)] if (bc == 'infinite' or L >= 3) else [(0, 1), (1, 1)]
+            for first, last in owins:
+                for ca in ((True, False) if first > 0 else (True, )):
+                    add(f'sample.ops[{first}..{last},ops={".".join(meas_ops)},complex_amplitude={ca}][{gn}]', 'sample_ops_case', g, first=first,
+                        last=last, ops=meas_ops, complex_amplitude=ca)
+                    cases[-1]['opts'].update(guided_with_side=True, lazy_abs=True, named_zero_tests=True, profile=False)
     return cases
